@@ -56,9 +56,15 @@ def _maybe_fixed_width(rng, c, p=0.3):
         r["dtype"] = dt
         r["table"] = R.edge_table(rng, dt, len(r["table"]))
     c["fixed_width"] = dt
-    if dt == "int64":       # keep the whole sum in exact integer arithmetic (no float own cost)
+    if dt == "int64":
+        # keep the whole sum in exact integer arithmetic: no float own cost (inf, or the 0.0 a
+        # VariableWithCostDict returns for a missing value) next to 2^62-scale integers
         for v in c["vars"]:
-            v["costs"] = [[d, t if isinstance(t, int) else rng.randint(-5, 20)] for d, t in v["costs"]]
+            if v["kind"] != "plain":
+                have = dict((d, t) for d, t in v["costs"])
+                v["kind"] = "func"
+                v["costs"] = [[d, have[d] if isinstance(have.get(d), int) else rng.randint(-5, 20)]
+                              for d in v["dom"]]
 
 
 def _gen_multi(rng, c):
